@@ -2,6 +2,8 @@ import CookModel.Analysis.MetaValidator
 import CookModel.Lemmas.CollectorAgree
 import CookModel.Lemmas.CollectorFrame
 import CookModel.Lemmas.MetaFront
+import CookModel.Lemmas.DiagAnalysisIff
+import CookModel.Lemmas.StdMetaCoupling
 /-
   Lemmas about the `>>` arm under a `metadata_validator` (Analysis/MetaValidator.lean), prefix `mvl_`:
   the default verdict gives back `metadataA`; what the arm does to the metadata part of the collector
@@ -76,6 +78,70 @@ theorem mvl_checked (env : Env) (v : FM.Verdict) (key value : Text) (s : Col α)
 theorem mvl_cfg (env : Env) (v : FM.Verdict) (key value : Text) (hc : isCfg env key = true) :
     metadataV (α := α) env v key value = metadataA env key value := by
   unfold metadataV; simp [hc]
+
+/-! ### what one call leaves in the collector -/
+
+theorem mvl_not_c07i (env : Env) (key : Text) (hc : isCfg env key = false) : c07i_isConfigKey env key = false := by
+  unfold isCfg at hc
+  unfold c07i_isConfigKey
+  rw [hc]; rfl
+
+/-- the report, the map and the servings after a `>>` entry (not a `[config]` entry) on which the validator
+    left the verdict `v` -/
+theorem mvl_entry_report (env : Env) (v : FM.Verdict) (key value : Text) (s : Col α) (hc : isCfg env key = false) :
+    (v.incl = false →
+      (metadataV env v key value s).2.metaMap = s.metaMap ∧ (metadataV env v key value s).2.servings = s.servings ∧
+      (metadataV env v key value s).2.diags.toList = s.diags.toList ++ validatorDiags v key value) ∧
+    (v.incl = true → v.runStd = false →
+      (metadataV env v key value s).2.metaMap = metaInsert s.metaMap (key.trimmed env.cs) (value.outerTrimmed env.cs) ∧
+      (metadataV env v key value s).2.servings = s.servings ∧
+      (metadataV env v key value s).2.diags.toList = s.diags.toList ++ validatorDiags v key value) ∧
+    (v.incl = true → v.runStd = true →
+      (metadataV env v key value s).2.diags.toList =
+        s.diags.toList ++ validatorDiags v key value ++ c07i_entryDiags env key value s.metaLocs) := by
+  refine ⟨fun hi => ?_, fun hi hr => ?_, fun hi hr => ?_⟩
+  · rw [mvl_excluded env v key value s hc hi]
+    exact ⟨rfl, rfl, by simp [noteCall]⟩
+  · rw [mvl_unchecked env v key value s hc hi hr]
+    exact ⟨rfl, rfl, by simp [noteCall, insertEntry]⟩
+  · rw [mvl_checked env v key value s hc hi hr, c07i_metadataA_entry env key value _ (mvl_not_c07i env key hc)]
+    simp
+
+/-- the std warning is among the diagnostics of a regular entry exactly when the key names a standard key and
+    the check refuses the value -/
+theorem mvl_entryDiags_warns (env : Env) (key value : Text) (locs : List (StdKey × Span)) :
+    (∃ d ∈ c07i_entryDiags env key value locs, d.kind = "std-unsupported-value") ↔
+    ∃ sk, StdKey.ofStr (String.ofList (key.trimmed env.cs)) = some sk ∧
+      env.stdCheck sk (value.outerTrimmed env.cs) = .rejected := by
+  unfold c07i_entryDiags
+  cases hk : StdKey.ofStr (String.ofList (key.trimmed env.cs)) with
+  | none => simp
+  | some sk =>
+    cases hv : env.stdCheck sk (value.outerTrimmed env.cs) with
+    | rejected => simp [adiag, hv]
+    | ok =>
+      simp only [hv, Option.some.injEq, exists_eq_left', reduceCtorEq, iff_false, not_exists, not_and]
+      intro d hd hkind
+      split at hd
+      · rw [c07i_timeOverrideDiags_kind _ _ d hd] at hkind; exact absurd hkind (by decide)
+      · simp at hd
+    | servings l =>
+      simp only [hv, Option.some.injEq, exists_eq_left', reduceCtorEq, iff_false, not_exists, not_and]
+      intro d hd hkind
+      split at hd
+      · rw [c07i_timeOverrideDiags_kind _ _ d hd] at hkind; exact absurd hkind (by decide)
+      · simp at hd
+
+/-- the collector's check instantiated with the C13 model refuses exactly when the accessor gives nothing -/
+theorem mvl_stdCheckOfSM_rejected (c : SM.Conv α) (alpha : Char → Bool) (k : Cook.StdKey) (v : Str) :
+    FM.stdCheckOfSM c alpha k v = .rejected ↔ SM.accessorGives c alpha (FM.toSMKey k) (.str v) = false := by
+  have h := SM.check_none_iff c alpha (FM.toSMKey k) (.str v)
+  unfold FM.stdCheckOfSM
+  cases hc : SM.checkStdEntry c alpha (FM.toSMKey k) (.str v) with
+  | none => rw [hc] at h; simpa using h.symm
+  | some o =>
+    rw [hc] at h
+    cases o <;> simpa using h.symm
 
 /-! ### the metadata part after the arm depends on the metadata part before it (and the verdict) -/
 
